@@ -135,8 +135,10 @@ def run(ctx):
                 L.append("dumpmeta")           # lets the check see who uses the field about to be deleted
                 L.append("delete %s %d" % (tgt, rng.choice([0, 0, 1, 4, 8, 9, 12, 13])))
             elif r < 0.78:
-                tgt = rng.choice(["a", "b", "l1", "k", "ca", "ph", "al", "P_x_S"] + st["added_vec"] + st["added_sca"])
-                L.append("rename %s %s %d" % (tgt, "r%d%s" % (st["n"], rng.choice(["", "x", "_long_name"])), rng.choice([0, 2, 4, 6])))
+                tgt = rng.choice(["a", "b", "c", "l1", "k", "ca", "ph", "al", "P_x_S", "a/msa", "a/mca", "a/m", "sa", "lut.txt"] + st["added_vec"] + st["added_sca"])
+                L.append("dumpmeta")           # who uses the field about to be renamed
+                L.append("rename %s %s %d" % (tgt, "r%d%s" % (st["n"], rng.choice(["", "x", "_long_name"])), rng.choice([0, 2, 2, 4, 6])))
+                L.append("dumpmeta")
                 st["n"] += 1
             elif r < 0.84:
                 L.append("move %s %d 0" % (rng.choice(["l1", "k", "ph", "ca", "s", "al", "a/m", "P_y_S"] + st["added_vec"]), rng.choice([0, 1, 2])))
@@ -188,6 +190,26 @@ def run(ctx):
                         ctx.fail("input", "%s succeeded although %s use(s) it as an input and GD_DEL_FORCE was not given" % (l, ",".join(users[:3])),
                                  {"script": lines[:i + 1]}, sig={"class": "delete-not-refused"})
                         break
+                if t == "rename" and i > 0 and lines[i - 1] == "dumpmeta" and i + 1 < len(out) and lines[i + 1] == "dumpmeta" and " e=0" in out[i]:
+                    oldn, newn, fl = l.split()[1], l.split()[2], int(l.split()[3])
+                    newfull = (oldn.split("/")[0] + "/" + newn) if "/" in oldn else newn
+                    if fl & 2:        # GD_REN_UPDB: every use of the old name follows the rename
+                        def uses(dump, name):
+                            u = []
+                            for it in dump.split("|"):
+                                if it.startswith("E ") and re.search(r'(?: in2?=|<)"%s(\.[a-z])?"' % re.escape(name), it):
+                                    u.append(it.split()[1].strip('"'))
+                            return u
+                        before = [x for x in uses(out[i - 1], oldn) if x != oldn and not x.startswith(oldn + "/")]
+                        stale = uses(out[i + 1], oldn)
+                        after = uses(out[i + 1], newfull)
+                        ctx.evaluations += 1
+                        ctx.distinct.add(("rename-updb", bool(before), "/" in oldn))
+                        missing = [x for x in before if x not in after]
+                        if stale or missing:
+                            ctx.fail("input", "%s (GD_REN_UPDB) succeeded but %s still refer(s) to the old name / %s not updated to %s" % (l, stale[:3], missing[:3], newfull),
+                                     {"script": lines[:i + 2]}, sig={"class": "rename-not-propagated"})
+                            break
                 key = t + (" ok" if " e=0" in out[i] else " refused")
                 opstat[key] = opstat.get(key, 0) + 1
             elif t == "validateall":
